@@ -23,11 +23,13 @@ import LLBuild.Drv.C03
 import LLBuild.Drv.C04
 import LLBuild.Drv.C17Lex
 import LLBuild.Drv.C17Load
+import LLBuild.Drv.C17Parse
+import LLBuild.Drv.C19Yaml
 
 open LLBuild.Drv
 
 def allModes : List (String × Mode) :=
-  LLBuild.Drv.C14.modes ++ LLBuild.Drv.Engine.modes ++ LLBuild.Drv.C18.modes ++ LLBuild.Drv.C12.modes ++ LLBuild.Drv.C08.modes ++ LLBuild.Drv.EngineImpl.modes ++ LLBuild.Drv.EngineInv.modes ++ LLBuild.Drv.C09.modes ++ LLBuild.Drv.C11.modes ++ LLBuild.Drv.C20.modes ++ LLBuild.Drv.C10.modes ++ LLBuild.Drv.C16.modes ++ LLBuild.Drv.C15.modes ++ LLBuild.Drv.C13.modes ++ LLBuild.Drv.C03.modes ++ LLBuild.Drv.C04.modes ++ LLBuild.Drv.C17Lex.modes ++ LLBuild.Drv.C17Load.modes
+  LLBuild.Drv.C14.modes ++ LLBuild.Drv.Engine.modes ++ LLBuild.Drv.C18.modes ++ LLBuild.Drv.C12.modes ++ LLBuild.Drv.C08.modes ++ LLBuild.Drv.EngineImpl.modes ++ LLBuild.Drv.EngineInv.modes ++ LLBuild.Drv.C09.modes ++ LLBuild.Drv.C11.modes ++ LLBuild.Drv.C20.modes ++ LLBuild.Drv.C10.modes ++ LLBuild.Drv.C16.modes ++ LLBuild.Drv.C15.modes ++ LLBuild.Drv.C13.modes ++ LLBuild.Drv.C03.modes ++ LLBuild.Drv.C04.modes ++ LLBuild.Drv.C17Lex.modes ++ LLBuild.Drv.C17Load.modes ++ LLBuild.Drv.C17Parse.modes ++ LLBuild.Drv.C19Yaml.modes
 
 def main (args : List String) : IO UInt32 := do
   let stdin ← IO.getStdin
